@@ -72,7 +72,7 @@ func measureOnPanic(c Case) Event {
 	if _, ok := c["kind"]; ok {
 		return Event{"kind": "sliver", "k": 1, "hu": 1, "wkt": "", "fin": false, "cempty": false, "dxu": 0, "dyu": 0, "areafin": false}
 	}
-	return Event{"g": []*flat{}, "area2": 0, "sarea2": 0, "area2t": 0, "ts": 1, "lenn": 0, "cx": 0, "cy": 0, "cempty": false, "gp": false, "slen": 0, "scen": 0, "noarea": false}
+	return Event{"g": []*flat{}, "area2": 0, "sarea2": 0, "area2t": 0, "ts": 1, "lenn": 0, "cx": 0, "cy": 0, "cempty": false, "gp": false, "slen": 0, "scen": 0, "noarea": false, "rev": []int{0, 0, 0}}
 }
 
 func roundInt(v float64) int {
@@ -143,6 +143,10 @@ func measureExec(c Case) Event {
 			sgn = -1
 		}
 	}
+	// Reverse negates the signed area of its result and leaves its argument alone (measured before, on the result, after)
+	sb := roundM(2 * g.Area(geom.SignedArea) / (s * s))
+	rv := g.Reverse()
+	ev["rev"] = []int{sb, roundM(2 * rv.Area(geom.SignedArea) / (s * s)), roundM(2 * g.Area(geom.SignedArea) / (s * s))}
 	ev["area2"] = roundM(2 * g.Area() / (s * s))
 	ev["sarea2"] = roundM(sgn * 2 * g.Area(geom.SignedArea) / (s * s))
 	ts, dx, dy := float64(c.num("ts")), float64(c.num("tdx")), float64(c.num("tdy"))
